@@ -145,7 +145,7 @@ impl Execution {
                 None => continue,
             };
 
-            if let Some(access) = self.objects.last_dependent_access(operation) {
+            for access in self.objects.last_dependent_accesses(operation) {
                 if access.happens_before(&th.dpor_vv) {
                     // The previous access happened before this access, thus
                     // there is no race.
@@ -229,14 +229,18 @@ impl Execution {
             let threads = &mut self.threads;
             let th_id = threads.active_id();
 
-            if let Some(access) = self.objects.last_dependent_access(operation) {
+            for access in self.objects.last_dependent_accesses(operation) {
                 threads.active_mut().dpor_vv.join(access.version());
             }
 
             threads.active_mut().dpor_vv[th_id] += 1;
 
-            self.objects
-                .set_last_access(operation, path_id, &threads.active().dpor_vv);
+            self.objects.set_last_access(
+                operation,
+                th_id.as_usize(),
+                path_id,
+                &threads.active().dpor_vv,
+            );
         }
 
         // Reactivate yielded threads, but only if the current active thread is
